@@ -293,6 +293,59 @@ class History(object):
         self.zombies = {}
 
     # ---- monitors --------------------------------------------------------
+    def selfdrop(self):
+        """a callback whose last reference is dropped *while it runs* (it is called
+        through a raw function pointer), after which new callbacks reuse the freed
+        closure: the running call must still finish as itself - own result
+        conversion, own error value"""
+        st, rnd = self.st, self.rnd
+        ffi = st['mffi'] if rnd.random() < 0.5 else st['pffi']
+        E = rnd.randint(-10 ** 6, 10 ** 6)
+        mode = rnd.choice(['return', 'raise', 'raise', 'badvalue'])
+        use_onerror = rnd.random() < 0.4
+        holder, fresh, ran, onerr = [], [], [], []
+
+        def f(x):
+            ran.append(x)
+            del holder[:]                      # the only reference to the callback object
+            for j in range(rnd.choice([1, 3, 8])):
+                fresh.append(ffi.callback('int(int)', lambda y: y - 5, error=-77))
+            if mode == 'raise':
+                raise ZeroDivisionError('selfdrop')
+            if mode == 'badvalue':
+                return 'not an int'
+            return x * 3 + 1
+        kw = {'error': E}
+        if use_onerror:
+            kw['onerror'] = lambda e, v, tb: onerr.append(e.__name__)
+        holder.append(ffi.callback('int(int)', f, **kw))
+        addr = int(ffi.cast('intptr_t', holder[0]))
+        raw = st['mffi'].cast(st['T']['i'], addr)
+        x = rnd.randint(-1000, 1000)
+        old_hook = sys.unraisablehook
+        sys.unraisablehook = lambda u: None
+        try:
+            got = st['call']['i'](raw, x) if rnd.random() < 0.6 else raw(x)
+        finally:
+            sys.unraisablehook = old_hook
+        exp = x * 3 + 1 if mode == 'return' else E
+        self.rep.stat('selfdrop_' + mode)
+        self.rep.stat('selfdrop_calls')
+        if ran != [x] or got != exp or holder:
+            self.bad('selfdrop-call-finished-as-another-callback:' + mode, 'int(int) callback '
+                     'with error=%d, dropped by its own function which then created %d new '
+                     'callbacks and %s: function ran with %r, C caller got %r, expected %r' %
+                     (E, len(fresh), {'return': 'returned', 'raise': 'raised',
+                                      'badvalue': 'returned a str'}[mode], ran, got, exp))
+        if use_onerror and mode != 'return' and len(onerr) != 1:
+            self.bad('selfdrop-onerror-not-own', 'the onerror handler of the self-dropping '
+                     'callback ran %d times' % len(onerr))
+        for c in fresh[:2]:
+            if c(10) != 5:
+                self.bad('selfdrop-new-callback-wrong', 'a callback created during the call '
+                         'returned %r for 10, expected 5' % (c(10),))
+        del fresh[:]
+
     def check_call(self, k, path=None):
         st, rnd = self.st, self.rnd
         r = self.live[k]
@@ -370,6 +423,8 @@ class History(object):
         if r < 0.03:
             op = ('gc',)
             self.collect()
+            for _ in range(rnd.choice([0, 1, 2])):
+                self.selfdrop()
         elif r < 0.06 and n:
             op = ('sweep',)
             if n <= 5000 or rnd.random() < 0.2:
